@@ -2,9 +2,9 @@ SPECIFICATION Spec
 CONSTANTS
   Streams <- MCStreams
   Full = FALSE
-  RBufs = {0, 1, 64, 124, 1024}
+  RBufs = {0, 1, 64, 124, 1024, 8192}
   HSizes = {16, 256, 257, 4096}
-  ClientRBufs = {0, 1, 200, 1024}
+  ClientRBufs = {0, 1, 200, 1024, 8192}
   RespLen = 129
   CtlStreams <- MCCtlStreams
   CtlRBufs = {1, 16, 64, 124, 125, 126}
